@@ -586,25 +586,82 @@ Proof.
 Qed.
 
 (** * bilin_inv *)
+(** the clipped cell index is a cell of an axis with at least two nodes, for ANY position *)
+Lemma cell_index_range n x : (2 <= n)%Z -> (0 <= cell_index n x)%Z /\ (cell_index n x + 1 < n)%Z.
+Proof. intro H. unfold cell_index, zclip. lia. Qed.
+(** inside the axis the clipping does nothing *)
+Lemma cell_index_inside n x : 0 <= x -> x < inject_Z (n - 1) -> cell_index n x = qtrunc x.
+Proof.
+  intros H0 H1. destruct (trunc_cell x n H0 H1) as (A & B & _). unfold cell_index, zclip. lia.
+Qed.
+Lemma cell_index_comp n x y : x == y -> cell_index n x = cell_index n y.
+Proof. intro H. unfold cell_index. rewrite (qtrunc_comp x y H). reflexivity. Qed.
+
+(** every read of one pass is inside the arrays (C17-style): for well-formed arrays of equal shape with
+    at least two rows and columns the four nodes exist in F and in G, whatever the iterate (x, y) is *)
+Lemma bilin_step_reads_in_bounds F G x y :
+  wf_arr F = true -> wf_arr G = true -> same_shape G F = true -> (2 <= nrow F)%Z -> (2 <= ncol F)%Z ->
+  let i := cell_index (nrow F) x in let j := cell_index (ncol F) y in
+  in_range F i j = true /\ in_range F (i + 1) j = true /\ in_range F i (j + 1) = true /\
+  in_range F (i + 1) (j + 1) = true /\
+  (exists kf, corners F i j = Some kf) /\ (exists kg, corners G i j = Some kg).
+Proof.
+  intros WF WG Hs NR NC i j.
+  destruct (cell_index_range (nrow F) x NR) as [R0 R1]. destruct (cell_index_range (ncol F) y NC) as [C0 C1].
+  fold i in R0, R1. fold j in C0, C1.
+  unfold same_shape in Hs. rewrite andb_true_iff, !Z.eqb_eq in Hs. destruct Hs as [S1 S2].
+  repeat split; try (apply in_range_iff; lia).
+  - apply corners_wf; assumption.
+  - apply corners_wf; try assumption; lia.
+Qed.
+
+Lemma bilin_step_not_left f g F G tol x y :
+  wf_arr F = true -> wf_arr G = true -> same_shape G F = true -> (2 <= nrow F)%Z -> (2 <= ncol F)%Z ->
+  bilin_step f g F G tol x y <> StLeft.
+Proof.
+  intros WF WG Hs NR NC.
+  destruct (bilin_step_reads_in_bounds F G x y WF WG Hs NR NC) as (_ & _ & _ & _ & [kf Hf] & [kg Hg]).
+  unfold bilin_step. rewrite Hf, Hg.
+  destruct (Qlt_bool _ tol); [discriminate|]. destruct (Qeq_bool _ 0); discriminate.
+Qed.
+
+Lemma bilin_loop_never_left f g F G tol fuel :
+  wf_arr F = true -> wf_arr G = true -> same_shape G F = true -> (2 <= nrow F)%Z -> (2 <= ncol F)%Z ->
+  forall x y bx b_y, bilin_loop f g F G tol fuel x y <> BLeft bx b_y.
+Proof.
+  intros WF WG Hs NR NC. induction fuel as [|k IH]; intros x y bx b_y; cbn [bilin_loop]; [discriminate|].
+  pose proof (bilin_step_not_left f g F G tol x y WF WG Hs NR NC) as NL.
+  destruct (bilin_step f g F G tol x y); try discriminate; [apply IH|contradiction].
+Qed.
+
+Lemma bilin_inv_never_left f g F G maxiter tol bx b_y :
+  wf_arr F = true -> wf_arr G = true -> (2 <= nrow F)%Z -> (2 <= ncol F)%Z ->
+  bilin_inv f g F G maxiter tol <> BLeft bx b_y.
+Proof.
+  intros WF WG NR NC. unfold bilin_inv. destruct (same_shape G F) eqn:Hs; cbn [negb]; [|discriminate].
+  apply bilin_loop_never_left; assumption.
+Qed.
+
 (** T5: a return through the convergence test satisfies the test at the returned point *)
-Lemma bilin_step_stop f g F G tol x y : bilin_step f g F G tol x y = StStop ->
+Lemma bilin_step_stop f g F G tol x y : bilin_step f g F G tol x y = StStop -> same_shape G F = true ->
   exists Fs Gs, bil_at F x y = Some Fs /\ bil_at G x y = Some Gs /\ resid2 Fs f Gs g < tol.
 Proof.
-  unfold bilin_step, bil_at.
-  destruct (corners F (qtrunc x) (qtrunc y)) as [kf|]; [|discriminate].
-  destruct (corners G (qtrunc x) (qtrunc y)) as [kg|]; [|discriminate].
+  unfold bilin_step, bil_at. intros H Hs.
+  unfold same_shape in Hs. rewrite andb_true_iff, !Z.eqb_eq in Hs. destruct Hs as [-> ->].
+  destruct (corners F _ _) as [kf|]; [|discriminate].
+  destruct (corners G _ _) as [kg|]; [|discriminate].
   destruct (Qlt_bool _ tol) eqn:E.
-  - intros _. apply Qlt_bool_true in E. eauto.
+  - apply Qlt_bool_true in E. eauto.
   - destruct (Qeq_bool _ 0); discriminate.
 Qed.
 
-Lemma bilin_loop_post f g F G tol fuel : forall x0 y0 x y,
+Lemma bilin_loop_post f g F G tol fuel : same_shape G F = true -> forall x0 y0 x y,
   bilin_loop f g F G tol fuel x0 y0 = BDone x y true ->
   exists Fs Gs, bil_at F x y = Some Fs /\ bil_at G x y = Some Gs /\ resid2 Fs f Gs g < tol.
 Proof.
-  induction fuel as [|k IH]; intros x0 y0 x y H; cbn [bilin_loop] in H; [discriminate|].
+  intro Hs. induction fuel as [|k IH]; intros x0 y0 x y H; cbn [bilin_loop] in H; [discriminate|].
   destruct (bilin_step f g F G tol x0 y0) eqn:E; try discriminate.
-  - injection H as <- <-. apply (bilin_step_stop _ _ _ _ _ _ _ E).
+  - injection H as <- <-. apply (bilin_step_stop _ _ _ _ _ _ _ E Hs).
   - apply (IH _ _ _ _ H).
 Qed.
 
@@ -612,23 +669,16 @@ Lemma bilin_inv_post f g F G maxiter tol x y :
   bilin_inv f g F G maxiter tol = BDone x y true ->
   exists Fs Gs, bil_at F x y = Some Fs /\ bil_at G x y = Some Gs /\ resid2 Fs f Gs g < tol.
 Proof.
-  unfold bilin_inv. destruct (negb (same_shape G F)); [discriminate|]. apply bilin_loop_post.
+  unfold bilin_inv. destruct (same_shape G F) eqn:Hs; cbn [negb]; [|discriminate]. apply bilin_loop_post. exact Hs.
 Qed.
 
-(** the estimate used by the iteration is sample2D with the axes exchanged *)
-Lemma bil_at_sample2D A undef outv x y v : bil_at A x y = Some v -> 0 <= x -> 0 <= y ->
+(** inside the array the estimate used by the iteration is sample2D with the axes exchanged *)
+Lemma bil_at_sample2D A undef outv x y v : bil_at A x y = Some v -> outside A y x = false ->
   exists v', sample2D A None undef outv y x = SVal v' /\ v' == v.
 Proof.
-  unfold bil_at. intros H X0 Y0.
+  unfold bil_at. intros H Ho. pose proof Ho as Hi. apply outside_false in Hi. destruct Hi as (Y0 & Y1 & X0 & X1).
+  rewrite (cell_index_inside _ x X0 X1), (cell_index_inside _ y Y0 Y1) in H.
   destruct (corners A (qtrunc x) (qtrunc y)) as [k|] eqn:Hc; [|discriminate]. injection H as <-.
-  destruct (corners_in_range _ _ _ _ Hc) as (R0 & R1 & C0 & C1).
-  assert (outside A y x = false) as Ho.
-  { apply outside_false.
-    rewrite (qtrunc_nonneg x X0) in R1. rewrite (qtrunc_nonneg y Y0) in C1.
-    destruct (qfloor_spec x) as [_ B1]. destruct (qfloor_spec y) as [_ B2].
-    assert (inject_Z (qfloor x + 1) <= inject_Z (nrow A - 1)) by (rewrite <- Zle_Qle; lia).
-    assert (inject_Z (qfloor y + 1) <= inject_Z (ncol A - 1)) by (rewrite <- Zle_Qle; lia).
-    repeat split; lra. }
   eexists. split; [apply (sample2D_inside_nomask A undef outv y x k Ho Hc)|].
   rewrite s2d_nomask. unfold wsum, bil_est, frac. ring.
 Qed.
@@ -643,18 +693,19 @@ Proof.
   intros H r c Hin. destruct (H r c Hin) as (v & G1 & E). exists v. split; [exact G1|]. rewrite E. ring.
 Qed.
 
-Lemma affine_cell A a0 a1 a2 x y :
-  affine_arr A a0 a1 a2 ->
-  (0 <= qtrunc x)%Z -> (qtrunc x + 1 < nrow A)%Z -> (0 <= qtrunc y)%Z -> (qtrunc y + 1 < ncol A)%Z ->
-  exists k, corners A (qtrunc x) (qtrunc y) = Some k /\
-    bil_est k (x - inject_Z (qtrunc x)) (y - inject_Z (qtrunc y)) == a0 + a1 * x + a2 * y /\
+(** in ANY cell (r, c) of the array the bilinear estimate of an affine array is the affine function
+    itself, also when (x, y) is outside that cell (extrapolation), and the Jacobian entries are exact *)
+Lemma affine_cell A a0 a1 a2 r c x y :
+  affine_arr A a0 a1 a2 -> (0 <= r)%Z -> (r + 1 < nrow A)%Z -> (0 <= c)%Z -> (c + 1 < ncol A)%Z ->
+  exists k, corners A r c = Some k /\
+    bil_est k (x - inject_Z r) (y - inject_Z c) == a0 + a1 * x + a2 * y /\
     (forall q, bil_dx k q == a1) /\ (forall p, bil_dy k p == a2).
 Proof.
   intros HA R0 R1 C0 C1.
-  destruct (HA (qtrunc x) (qtrunc y)) as (v1 & G1 & E1); [apply in_range_iff; lia|].
-  destruct (HA (qtrunc x + 1)%Z (qtrunc y)) as (v2 & G2 & E2); [apply in_range_iff; lia|].
-  destruct (HA (qtrunc x) (qtrunc y + 1)%Z) as (v3 & G3 & E3); [apply in_range_iff; lia|].
-  destruct (HA (qtrunc x + 1)%Z (qtrunc y + 1)%Z) as (v4 & G4 & E4); [apply in_range_iff; lia|].
+  destruct (HA r c) as (v1 & G1 & E1); [apply in_range_iff; lia|].
+  destruct (HA (r + 1)%Z c) as (v2 & G2 & E2); [apply in_range_iff; lia|].
+  destruct (HA r (c + 1)%Z) as (v3 & G3 & E3); [apply in_range_iff; lia|].
+  destruct (HA (r + 1)%Z (c + 1)%Z) as (v4 & G4 & E4); [apply in_range_iff; lia|].
   rewrite !inject_Z_succ in *.
   exists (Quad v1 v2 v3 v4). split; [apply corners_some; cbn; auto|].
   unfold bil_est, bil_dx, bil_dy. cbn [n00 n01 n10 n11].
@@ -664,40 +715,41 @@ Qed.
 Lemma resid2_zero Fs f Gs g : Fs == f -> Gs == g -> resid2 Fs f Gs g == 0.
 Proof. intros H1 H2. unfold resid2. rewrite H1, H2. ring. Qed.
 
-(** at the exact pre-image the convergence test succeeds *)
+(** at the exact pre-image — wherever it is, inside the array or not — the convergence test succeeds *)
 Lemma affine_step_at_solution F G a0 a1 a2 b0 b1 b2 f g tol x y :
   affine_arr F a0 a1 a2 -> affine_arr G b0 b1 b2 -> same_shape G F = true -> 0 < tol ->
-  (0 <= qtrunc x)%Z -> (qtrunc x + 1 < nrow F)%Z -> (0 <= qtrunc y)%Z -> (qtrunc y + 1 < ncol F)%Z ->
+  (2 <= nrow F)%Z -> (2 <= ncol F)%Z ->
   a0 + a1 * x + a2 * y == f -> b0 + b1 * x + b2 * y == g ->
   bilin_step f g F G tol x y = StStop.
 Proof.
-  intros HF HG Hs Ht R0 R1 C0 C1 Ef Eg.
+  intros HF HG Hs Ht NR NC Ef Eg.
   unfold same_shape in Hs. rewrite andb_true_iff, !Z.eqb_eq in Hs. destruct Hs as [S1 S2].
-  destruct (affine_cell F a0 a1 a2 x y HF R0 R1 C0 C1) as (kf & Hkf & EF & _).
-  destruct (affine_cell G b0 b1 b2 x y HG) as (kg & Hkg & EG & _); try lia.
+  destruct (cell_index_range (nrow F) x NR) as [R0 R1]. destruct (cell_index_range (ncol F) y NC) as [C0 C1].
+  destruct (affine_cell F a0 a1 a2 _ _ x y HF R0 R1 C0 C1) as (kf & Hkf & EF & _).
+  destruct (affine_cell G b0 b1 b2 (cell_index (nrow F) x) (cell_index (ncol F) y) x y HG) as (kg & Hkg & EG & _); try lia.
   unfold bilin_step. rewrite Hkf, Hkg.
-  assert (Qlt_bool (resid2 (bil_est kf (x - inject_Z (qtrunc x)) (y - inject_Z (qtrunc y))) f
-                           (bil_est kg (x - inject_Z (qtrunc x)) (y - inject_Z (qtrunc y))) g) tol = true) as ->.
+  match goal with |- (if Qlt_bool ?h tol then _ else _) = _ => assert (Qlt_bool h tol = true) as -> end.
   { apply Qlt_bool_true. rewrite resid2_zero; [exact Ht|rewrite EF; exact Ef|rewrite EG; exact Eg]. }
   reflexivity.
 Qed.
 
-(** one Newton step from any cell of the array lands on the exact pre-image (xs, ys) *)
+(** one Newton pass from ANY iterate (x, y) either stops or lands on the exact pre-image (xs, ys) *)
 Lemma newton_affine_step F G a0 a1 a2 b0 b1 b2 f g tol x y xs ys :
   affine_arr F a0 a1 a2 -> affine_arr G b0 b1 b2 -> same_shape G F = true ->
-  ~ a1 * b2 - a2 * b1 == 0 ->
-  (0 <= qtrunc x)%Z -> (qtrunc x + 1 < nrow F)%Z -> (0 <= qtrunc y)%Z -> (qtrunc y + 1 < ncol F)%Z ->
+  ~ a1 * b2 - a2 * b1 == 0 -> (2 <= nrow F)%Z -> (2 <= ncol F)%Z ->
   f == a0 + a1 * xs + a2 * ys -> g == b0 + b1 * xs + b2 * ys ->
   bilin_step f g F G tol x y = StStop \/
   exists x' y', bilin_step f g F G tol x y = StNext x' y' /\ x' == xs /\ y' == ys.
 Proof.
-  intros HF HG Hs Hd R0 R1 C0 C1 Ef Eg.
+  intros HF HG Hs Hd NR NC Ef Eg.
   unfold same_shape in Hs. rewrite andb_true_iff, !Z.eqb_eq in Hs. destruct Hs as [S1 S2].
-  destruct (affine_cell F a0 a1 a2 x y HF R0 R1 C0 C1) as (kf & Hkf & EF & EFx & EFy).
-  destruct (affine_cell G b0 b1 b2 x y HG) as (kg & Hkg & EG & EGx & EGy); try lia.
+  destruct (cell_index_range (nrow F) x NR) as [R0 R1]. destruct (cell_index_range (ncol F) y NC) as [C0 C1].
+  destruct (affine_cell F a0 a1 a2 _ _ x y HF R0 R1 C0 C1) as (kf & Hkf & EF & EFx & EFy).
+  destruct (affine_cell G b0 b1 b2 (cell_index (nrow F) x) (cell_index (ncol F) y) x y HG)
+    as (kg & Hkg & EG & EGx & EGy); try lia.
   unfold bilin_step. rewrite Hkf, Hkg.
   destruct (Qlt_bool _ tol); [left; reflexivity|right].
-  set (p := x - inject_Z (qtrunc x)) in *. set (q := y - inject_Z (qtrunc y)) in *.
+  set (p := x - inject_Z (cell_index (nrow F) x)) in *. set (q := y - inject_Z (cell_index (ncol F) y)) in *.
   assert (bil_dx kf q * bil_dy kg p - bil_dy kf p * bil_dx kg q == a1 * b2 - a2 * b1) as Edet
     by (rewrite EFx, EFy, EGx, EGy; reflexivity).
   destruct (Qeq_bool _ 0) eqn:E.
@@ -708,41 +760,33 @@ Qed.
 
 Lemma newton_affine_loop F G a0 a1 a2 b0 b1 b2 f g tol k x y xs ys :
   affine_arr F a0 a1 a2 -> affine_arr G b0 b1 b2 -> same_shape G F = true ->
-  ~ a1 * b2 - a2 * b1 == 0 -> 0 < tol ->
-  (0 <= qtrunc x)%Z -> (qtrunc x + 1 < nrow F)%Z -> (0 <= qtrunc y)%Z -> (qtrunc y + 1 < ncol F)%Z ->
-  (0 <= qtrunc xs)%Z -> (qtrunc xs + 1 < nrow F)%Z -> (0 <= qtrunc ys)%Z -> (qtrunc ys + 1 < ncol F)%Z ->
+  ~ a1 * b2 - a2 * b1 == 0 -> 0 < tol -> (2 <= nrow F)%Z -> (2 <= ncol F)%Z ->
   f == a0 + a1 * xs + a2 * ys -> g == b0 + b1 * xs + b2 * ys ->
   exists x' y', bilin_loop f g F G tol (S (S k)) x y = BDone x' y' true /\
                 ((x' == xs /\ y' == ys) \/ (x' = x /\ y' = y)).
 Proof.
-  intros HF HG Hs Hd Ht R0 R1 C0 C1 SR0 SR1 SC0 SC1 Ef Eg.
+  intros HF HG Hs Hd Ht NR NC Ef Eg.
   cbn [bilin_loop].
-  destruct (newton_affine_step F G a0 a1 a2 b0 b1 b2 f g tol x y xs ys HF HG Hs Hd R0 R1 C0 C1 Ef Eg)
+  destruct (newton_affine_step F G a0 a1 a2 b0 b1 b2 f g tol x y xs ys HF HG Hs Hd NR NC Ef Eg)
     as [E|(x1 & y1 & E & Ex & Ey)]; rewrite E.
   - exists x, y. split; [reflexivity|right; split; reflexivity].
   - exists x1, y1. split; [|left; split; assumption].
-    rewrite (affine_step_at_solution F G a0 a1 a2 b0 b1 b2 f g tol x1 y1 HF HG Hs Ht); try reflexivity.
-    + rewrite (qtrunc_comp _ _ Ex). exact SR0.
-    + rewrite (qtrunc_comp _ _ Ex). exact SR1.
-    + rewrite (qtrunc_comp _ _ Ey). exact SC0.
-    + rewrite (qtrunc_comp _ _ Ey). exact SC1.
+    rewrite (affine_step_at_solution F G a0 a1 a2 b0 b1 b2 f g tol x1 y1 HF HG Hs Ht NR NC); try reflexivity.
     + rewrite Ex, Ey, Ef. reflexivity.
     + rewrite Ex, Ey, Eg. reflexivity.
 Qed.
 
-(** the initial guess (centre of the array) is a cell of the array when it has at least 3 nodes *)
-Lemma half_cell n : (3 <= n)%Z ->
-  (0 <= qtrunc ((1 # 2) * inject_Z n))%Z /\ (qtrunc ((1 # 2) * inject_Z n) + 1 < n)%Z.
+(** the inverse on an affine pair, for ANY requested (f, g) = image of (xs, ys), inside the array or not *)
+Lemma bilin_inv_affine F G a0 a1 a2 b0 b1 b2 f g tol maxiter xs ys :
+  affine_arr F a0 a1 a2 -> affine_arr G b0 b1 b2 -> same_shape G F = true ->
+  ~ a1 * b2 - a2 * b1 == 0 -> 0 < tol -> (2 <= nrow F)%Z -> (2 <= ncol F)%Z -> (2 <= maxiter)%Z ->
+  f == a0 + a1 * xs + a2 * ys -> g == b0 + b1 * xs + b2 * ys ->
+  exists x' y', bilin_inv f g F G maxiter tol = BDone x' y' true /\
+                ((x' == xs /\ y' == ys) \/ (x' = fst (bilin_start F) /\ y' = snd (bilin_start F))).
 Proof.
-  intro H. assert (3 <= inject_Z n) as H3 by (change 3 with (inject_Z 3); rewrite <- Zle_Qle; exact H).
-  assert (0 <= (1 # 2) * inject_Z n) as H0 by lra.
-  rewrite (qtrunc_nonneg _ H0). destruct (qfloor_spec ((1 # 2) * inject_Z n)) as [A B].
-  rewrite inject_Z_succ in B.
-  assert (inject_Z 0 < inject_Z (qfloor ((1 # 2) * inject_Z n) + 1)) as L1
-    by (rewrite inject_Z_succ; change (inject_Z 0) with 0; lra).
-  assert (inject_Z (qfloor ((1 # 2) * inject_Z n) + 1) < inject_Z n) as L2
-    by (rewrite inject_Z_succ; lra).
-  rewrite <- Zlt_Qlt in L1, L2. lia.
+  intros HF HG Hs Hd Ht NR NC HM Ef Eg. unfold bilin_inv. rewrite Hs. cbn [negb].
+  replace (Z.to_nat maxiter) with (S (S (Z.to_nat (maxiter - 2)))) by lia.
+  apply (newton_affine_loop F G a0 a1 a2 b0 b1 b2); assumption.
 Qed.
 
 Lemma default_tol_pos : 0 < default_tol.
@@ -752,36 +796,34 @@ Proof. reflexivity. Qed.
 Lemma inject_Z_sub a b : inject_Z (a - b) == inject_Z a - inject_Z b.
 Proof. unfold Zminus. rewrite inject_Z_plus, inject_Z_opp. reflexivity. Qed.
 
-(** T5 at grid level: when ll2xy returns through the convergence test, the returned position has
-    interpolated lon/lat within the tolerance of the requested ones *)
+(** T5 at grid level: when ll2xy returns through the convergence test a position inside the loaded
+    grid, that position has interpolated lon/lat within the tolerance of the requested ones *)
 Lemma ll2xy_post g lon lat X Y :
-  ll2xy g lon lat = BDone X Y true -> inject_Z (gi0 g) <= X -> inject_Z (gj0 g) <= Y ->
-  exists lo la, sres_eq (fst (xy2ll g X Y)) (SVal lo) /\ sres_eq (snd (xy2ll g X Y)) (SVal la) /\
-                resid2 lo lon la lat < default_tol.
+  ll2xy g lon lat = BDone X Y true -> same_shape (glat g) (glon g) = true ->
+  outside (glon g) (X - inject_Z (gi0 g)) (Y - inject_Z (gj0 g)) = false ->
+  exists lo la, xy2ll g X Y = (SVal lo, SVal la) /\ resid2 lo lon la lat < default_tol.
 Proof.
-  unfold ll2xy. intros H HX HY.
+  unfold ll2xy. intros H Hs Ho.
   destruct (bilin_inv lon lat (glon g) (glat g) default_maxiter default_tol) as [y x t| | |] eqn:E;
     try discriminate.
   injection H as <- <- ->.
   destruct (bilin_inv_post _ _ _ _ _ _ _ _ E) as (Fs & Gs & HF & HG & Hr).
-  assert (0 <= x) as X0 by lra. assert (0 <= y) as Y0 by lra.
-  destruct (bil_at_sample2D (glon g) 0 None y x Fs HF Y0 X0) as (lo & S1 & E1).
-  destruct (bil_at_sample2D (glat g) 0 None y x Gs HG Y0 X0) as (la & S2 & E2).
-  exists Fs, Gs. unfold xy2ll. cbn [fst snd].
   assert (x + inject_Z (gi0 g) - inject_Z (gi0 g) == x) as Ex by ring.
   assert (y + inject_Z (gj0 g) - inject_Z (gj0 g) == y) as Ey by ring.
-  assert (outside (glon g) x y = false) as O1
-    by (destruct (outside (glon g) x y) eqn:O; [|reflexivity]; unfold sample2D in S1; rewrite O in S1; discriminate).
-  assert (outside (glat g) x y = false) as O2
-    by (destruct (outside (glat g) x y) eqn:O; [|reflexivity]; unfold sample2D in S2; rewrite O in S2; discriminate).
-  rewrite (outside_comp (glon g) _ _ _ _ (Qeq_sym _ _ Ex) (Qeq_sym _ _ Ey)) in O1.
-  rewrite (outside_comp (glat g) _ _ _ _ (Qeq_sym _ _ Ex) (Qeq_sym _ _ Ey)) in O2.
-  pose proof (sample2D_comp_inside (glon g) 0 None _ _ _ _ Ex Ey O1) as C1.
-  pose proof (sample2D_comp_inside (glat g) 0 None _ _ _ _ Ex Ey O2) as C2.
-  rewrite S1 in C1. rewrite S2 in C2.
-  destruct (sample2D (glon g) None 0 None (x + inject_Z (gi0 g) - inject_Z (gi0 g)) _); try contradiction.
-  destruct (sample2D (glat g) None 0 None (x + inject_Z (gi0 g) - inject_Z (gi0 g)) _); try contradiction.
-  cbn [sres_eq] in *. repeat split; [lra|lra|exact Hr].
+  pose proof Hs as Hs'. unfold same_shape in Hs'. rewrite andb_true_iff, !Z.eqb_eq in Hs'. destruct Hs' as [S1 S2].
+  assert (outside (glat g) (x + inject_Z (gi0 g) - inject_Z (gi0 g)) (y + inject_Z (gj0 g) - inject_Z (gj0 g)) = false) as Ho'
+    by (unfold outside in *; rewrite S1, S2; exact Ho).
+  pose proof Ho as O1. rewrite (outside_comp (glon g) _ _ _ _ Ex Ey) in O1.
+  pose proof Ho' as O2. rewrite (outside_comp (glat g) _ _ _ _ Ex Ey) in O2.
+  destruct (bil_at_sample2D (glon g) 0 None y x Fs HF O1) as (lo & L1 & E1).
+  destruct (bil_at_sample2D (glat g) 0 None y x Gs HG O2) as (la & L2 & E2).
+  pose proof (sample2D_comp_inside (glon g) 0 None _ _ _ _ Ex Ey Ho) as C1.
+  pose proof (sample2D_comp_inside (glat g) 0 None _ _ _ _ Ex Ey Ho') as C2.
+  rewrite L1 in C1. rewrite L2 in C2. unfold xy2ll.
+  destruct (sample2D (glon g) None 0 None (x + inject_Z (gi0 g) - inject_Z (gi0 g)) _) as [lo'| | |]; try contradiction.
+  destruct (sample2D (glat g) None 0 None (x + inject_Z (gi0 g) - inject_Z (gi0 g)) _) as [la'| | |]; try contradiction.
+  cbn [sres_eq] in C1, C2. exists lo', la'. split; [reflexivity|].
+  unfold resid2 in *. rewrite C1, C2, E1, E2. exact Hr.
 Qed.
 
 (** T6 at grid level: on an affine, non-degenerate coordinate pair the round trip is exact, unless the
@@ -789,7 +831,7 @@ Qed.
     case the centre is returned (and [ll2xy_post] applies to it). *)
 Lemma ll2xy_xy2ll_affine g a0 a1 a2 b0 b1 b2 X Y :
   affine_arr (glon g) a0 a1 a2 -> affine_arr (glat g) b0 b1 b2 -> same_shape (glat g) (glon g) = true ->
-  ~ a1 * b2 - a2 * b1 == 0 -> (3 <= nrow (glon g))%Z -> (3 <= ncol (glon g))%Z ->
+  ~ a1 * b2 - a2 * b1 == 0 -> (2 <= nrow (glon g))%Z -> (2 <= ncol (glon g))%Z ->
   outside (glon g) (X - inject_Z (gi0 g)) (Y - inject_Z (gj0 g)) = false ->
   exists lo la X' Y',
     xy2ll g X Y = (SVal lo, SVal la) /\ ll2xy g lo la = BDone X' Y' true /\
@@ -803,23 +845,18 @@ Proof.
   destruct (sample2D_bilinear_exact _ _ _ _ _ 0 None _ _ (affine_is_bilinear _ _ _ _ HF) Ho) as (lo & L1 & L2).
   destruct (sample2D_bilinear_exact _ _ _ _ _ 0 None _ _ (affine_is_bilinear _ _ _ _ HG) Ho') as (la & M1 & M2).
   set (x := X - inject_Z (gi0 g)) in *. set (y := Y - inject_Z (gj0 g)) in *.
-  apply outside_false in Ho. destruct Ho as (X0 & X1 & Y0 & Y1).
-  destruct (trunc_cell x _ X0 X1) as (A1 & A2 & _). destruct (trunc_cell y _ Y0 Y1) as (B1 & B2 & _).
-  destruct (half_cell _ NR) as [R0 R1]. destruct (half_cell _ NC) as [C0 C1].
-  destruct (newton_affine_loop (glon g) (glat g) a0 a1 a2 b0 b1 b2 lo la default_tol 5
-              ((1 # 2) * inject_Z (nrow (glon g))) ((1 # 2) * inject_Z (ncol (glon g))) y x
-              HF HG Hs Hd default_tol_pos R0 R1 C0 C1 B1 B2 A1 A2)
-    as (x' & y' & EL & Alt).
+  destruct (bilin_inv_affine (glon g) (glat g) a0 a1 a2 b0 b1 b2 lo la default_tol default_maxiter y x
+              HF HG Hs Hd default_tol_pos NR NC) as (x' & y' & EL & Alt).
+  { unfold default_maxiter. lia. }
   { rewrite L2. ring. }
   { rewrite M2. ring. }
   exists lo, la, (y' + inject_Z (gi0 g)), (x' + inject_Z (gj0 g)).
   split; [unfold xy2ll; fold x; fold y; rewrite L1, M1; reflexivity|].
   split.
-  - unfold ll2xy, bilin_inv. rewrite Hs. cbn [negb]. unfold bilin_start. cbn [fst snd].
-    change (Z.to_nat default_maxiter) with 7%nat. rewrite EL. reflexivity.
+  - unfold ll2xy. rewrite EL. reflexivity.
   - destruct Alt as [[E1 E2]|[E1 E2]]; [left|right].
     + split; [rewrite E2|rewrite E1]; [unfold x|unfold y]; ring.
-    + unfold bilin_start. cbn [fst snd]. rewrite E1, E2. split; reflexivity.
+    + rewrite E1, E2. split; reflexivity.
 Qed.
 
 (** T7: sampling the sliced array at the shifted position = sampling the full array at the position *)
